@@ -164,7 +164,9 @@ func (f *Frame) execCall(instr *ssa.Call, cc *ssa.CallCommon, reach string, st *
 		} else {
 			f.top.usedContracts[FuncName(callee)] = true
 		}
+		f.calleeBindings = bindings
 		f.applyContract(instr, fc, callee, sig, args, reach, st, pos, hint)
+		f.calleeBindings = nil
 		return
 	}
 	if (fc != nil && fc.Inline || f.eng.autoInline(callee)) && f.depth < maxInlineDepth && callee.Blocks != nil {
@@ -433,7 +435,7 @@ func (f *Frame) execBuiltin(instr *ssa.Call, b *ssa.Builtin, cc *ssa.CallCommon,
 			f.define(instr, fmt.Sprintf("(slen %s)", a))
 		case *types.Map:
 			f.mapLenFacts(st, a, u)
-			f.define(instr, fmt.Sprintf("(ite (= %s nil) 0 (select %s %s))", a, f.heap(st, "M_len"), a))
+			f.define(instr, fmt.Sprintf("(ite (= %s nil) 0 (select %s %s))", a, f.heap(st, mapLenHeap(f.ctx, u)), a))
 		case *types.Array:
 			f.define(instr, fmt.Sprint(u.Len()))
 		case *types.Pointer:
@@ -472,6 +474,13 @@ func (f *Frame) execBuiltin(instr *ssa.Call, b *ssa.Builtin, cc *ssa.CallCommon,
 		f.define(instr, r)
 	case "print", "println":
 	case "close":
+		// with a declared `ghost heap chanClosed ptr bool`, closing a channel is recorded
+		if _, ok := ghostHeaps["chanClosed"]; ok {
+			h := f.heap(st, "G_chanClosed")
+			nh := f.ctx.Fresh("chanClosed", heapSort("G_chanClosed"))
+			f.ctx.Fact(fmt.Sprintf("(= %s (store %s %s true))", nh, h, arg(0)))
+			st.heaps["G_chanClosed"] = nh
+		}
 	default:
 		f.bail("unsupported builtin %s", b.Name())
 	}
